@@ -12,7 +12,7 @@ S13.3 parenthesis accounting in tokens_to_operator_tree: `(` pushes exactly one 
 S13.4 eager arity: every fixed-arity arm of Operator::eval / eval_mut checks its own arity before anything else.
 Not decided: completeness of the rejection (depends on the run-time shape of the partially built tree)."""
 import tables
-from absint import Interp, SYM, C, ADT, fmt, is_adt, Budget
+from absint import Interp, SYM, C, ADT, fmt, is_adt, Budget, apps
 from mirlib import (short, callee_matches, op_place, resolve_place, const_value, question_mark, switch_on_discriminant,
                     call_result_bool_edges, is_local, path_endswith)
 from rules.treepaths import opaque_hook, calls_of, branches_of, is_true, seed
@@ -67,7 +67,7 @@ def modes(ctx, prog, T):
                 if nm == 'push' and len(a) == 2:
                     if a[0] == SYM('self_children') and a[1] == nodev and not popped:
                         plain_kinds.add((v['name'], sp))
-                    if popped and a[0] != SYM('self_children') and '::pop' in fmt(a[1]) and '$self_children' in fmt(a[1]):
+                    if popped and a[0] != SYM('self_children') and any(n_.split('::')[-1].split('#')[0] in ('pop', 'last', 'last_mut') and x_ and x_[0] == SYM('self_children') for n_, x_ in apps(a[1])):
                         # the node popped from self.children is pushed into another node's children: rotation
                         rot_kinds.add((v['name'], sp))
     ctx.counters['insert_paths_enumerated'] = n_paths
